@@ -5,7 +5,8 @@ from __future__ import annotations
 import random
 from fractions import Fraction
 
-LABELS = [None, None, "", "step", "fill up", "dilute 1:10", "first", "last", "mix  ", "add 10% glycerol", "line1\nline2", "µL transfer", "a;b"]
+LABELS = [None, None, "", "step", "fill up", "dilute 1:10", "first", "last", "mix  ", "add 10% glycerol", "line1\nline2", "µL transfer", "a;b",
+          "\tindented", "dos line\r\nnext\r", "nbsp\u00a0"]
 LIQ = ["", "Water", "Water_FD_AspZmax-1", "DMSO free"]
 
 
